@@ -59,6 +59,8 @@ def main():
             if only and name not in only and name.split("-")[0] not in only:
                 continue
             meta = json.load(open(os.path.join(bdir, name, "meta.json")))
+            if meta.get("skip_in_matrix"):
+                continue
             items.append(("benign:" + name, os.path.join(bdir, name, "patch.diff"), sorted(meta.get("checks_run") or [meta["property"]]), tier))
         with ThreadPoolExecutor(max_workers=par) as ex:
             for name, res in ex.map(one, items):
